@@ -51,6 +51,15 @@ func (sc *sliceContainers) Put(key uint64, c *Container) {
 
 }
 
+// refreshLast keeps the last* cache pointing at the container stored for
+// key. It must be called whenever the container stored at key is replaced
+// other than through Put.
+func (sc *sliceContainers) refreshLast(key uint64, c *Container) {
+	if key == sc.lastKey {
+		sc.lastContainer = c
+	}
+}
+
 func (sc *sliceContainers) PutContainerValues(key uint64, typ byte, n int, mapped bool) {
 	i := search64(sc.keys, key)
 	if i < 0 {
@@ -70,6 +79,7 @@ func (sc *sliceContainers) PutContainerValues(key uint64, typ byte, n int, mappe
 		c.setN(int32(n))
 		c.setMapped(mapped)
 		sc.containers[i] = c
+		sc.refreshLast(key, c)
 	}
 
 }
@@ -211,6 +221,7 @@ func (sc *sliceContainers) Update(key uint64, fn func(*Container, bool) (*Contai
 		nc, write = fn(sc.containers[i], true)
 		if write {
 			sc.containers[i] = nc
+			sc.refreshLast(key, nc)
 		}
 	} else {
 		nc, write = fn(nil, false)
@@ -231,6 +242,7 @@ func (sc *sliceContainers) UpdateEvery(fn func(uint64, *Container, bool) (*Conta
 		nc, write := fn(sc.keys[i], c, true)
 		if write {
 			sc.containers[i] = nc
+			sc.refreshLast(sc.keys[i], nc)
 		}
 	}
 }
